@@ -1734,6 +1734,24 @@ def _max(*a, **k):
     return term('max', *sorted((fz(v) for v in vals), key=repr))
 
 
+def _clip(x, *bounds, **k):
+    """clip(x, lo, hi): an opaque elementwise function of x unless both bounds are absent (a value that was x and is now
+    clip(x, ...) is a different value: equal to x only where x lies between the bounds)"""
+    b = list(bounds) + [k.get(n) for n in ('min', 'max', 'a_min', 'a_max') if n in k]
+    if all(v is None for v in b):
+        return x
+    if isinstance(x, AT) and all(isinstance(a_, int) for a_ in x.axes) is False:
+        # a tensor with named axes: entry by entry
+        import numpy as _np
+        def one(p):
+            return Poly.atom(('F', 'clip', (repr(fz(p)),) + tuple(repr(fz(v)) for v in b), frozenset(p.deps())))
+        data = _np.empty(x.data.shape, dtype=object)
+        for i in _np.ndindex(x.data.shape):
+            data[i] = one(x.data[i])
+        return AT(x.axes, data)
+    return term('clip', x, *b)
+
+
 def _min(*a, **k):
     if len(a) == 1:
         a = tuple(a[0])
@@ -1809,6 +1827,7 @@ def make_world_externals(world_ref):
 
     jnp = NS("jnp",
              array=_jnp_array, asarray=_jnp_array, result_type=_result_type, minimum=(lambda a, b: _min(a, b)), maximum=(lambda a, b: _max(a, b)),
+             clip=_clip, nan_to_num=(lambda x, **k: term('nan_to_num', x, **k)),
              stack=_jnp_stack_model, concatenate=symaware('concatenate', alg.jnp_concatenate),
              hstack=symaware('hstack', alg.jnp_hstack), column_stack=symaware('column_stack', alg.jnp_column_stack),
              vstack=symaware('vstack', alg.jnp_vstack), dstack=_dstack, roll=_roll,
